@@ -880,6 +880,17 @@ class SymInterp(Interp):
                 div = (n - 1) if endpoint else n
                 return SArr((n,), [a + (b - a) * i / div for i in range(n)])
             return linspace
+        if name in ("argmax", "argmin"):
+            def argm(a, axis=None, **k):
+                if k or axis not in (None, 0, -1):
+                    raise AnalysisAbort(f"np.{name} with axis / keywords")
+                a = S.asarr(a)
+                if a.ndim != 1 or not all(isinstance(v, Rat) and v.is_const() for v in a.data):
+                    raise AnalysisAbort(f"np.{name} over symbolic (undecided) values")
+                vals = [v.const() for v in a.data]
+                best = max(vals) if name == "argmax" else min(vals)
+                return rat(vals.index(best))          # the first position of the extremum
+            return argm
         if name == "isfinite":
             return lambda a: S.elementwise(lambda x: rat(0 if (isinstance(x, Rat) and ({"nan", "inf"} & set(x.symbols()))) else 1), a)
         if name == "reshape":
